@@ -477,6 +477,8 @@ class Frame:
                 "Larger image must be exactly twice or the same size: "
                 f"{larger.width}x{larger.height} -> {self.width}x{self.height}"
             )
+        # The larger frame may still be waiting to be read from the file, load it like copy_from() does.
+        larger.load()
         if self._data is None:
             self._data = _BLANK_PIXEL * (self.width * self.height)
         if larger._data is not None:
